@@ -95,8 +95,12 @@ def handle (op : String) (j : Json) : Option Json :=
     match caseOfJson j with
     | some cs =>
       let progs := progsOf cs
-      some (obj [("final", dbToJson (runFinal applyAct cs.c cs.pre progs cs.db)),
-                 ("raised", Json.bool (runRaised applyAct cs.c cs.pre progs cs.db))])
+      let sh : Shape := match getStrD j "shape" "stock" with
+        | "preStmt" => .preStmt
+        | "noOuter" => .noOuter
+        | _ => .stock
+      let r := runShape applyAct sh cs.c cs.pre progs cs.db
+      some (obj [("final", dbToJson r.1), ("raised", Json.bool r.2)])
     | none => some (errJ "bad-op")
   | "online.spec" =>
     match caseOfJson j with
